@@ -8,6 +8,7 @@ pub mod c04;
 pub mod c08;
 pub mod c10;
 pub mod c16;
+pub mod c18;
 
 pub type RunFn = fn(&mut Ctx);
 
@@ -36,4 +37,5 @@ table! {
     "C08" => c08::run, c08::replay;
     "C10" => c10::run, c10::replay;
     "C16" => c16::run, c01::replay;
+    "C18" => c18::run, c18::replay;
 }
